@@ -335,7 +335,7 @@ def special_files(ctx, tmpdir):
         c = dc.tree_rich_case(rng, maxpix=24)
         c['dtype'], c['scale'] = 'float64', 0
         c.pop('den', None)
-        kind = rng.choice(['gz', 'gz', 'inf', 'inf', '-inf'])
+        kind = rng.choice(['gz', 'gz', 'inf', 'inf', '-inf', 'inf-param'])
         arr = impl.case_array(dict(c, layout='C')).astype(float)
         if kind in ('inf', '-inf'):
             flat = arr.ravel()
@@ -348,6 +348,13 @@ def special_files(ctx, tmpdir):
             kw.pop('is_independent', None)
             if kind == '-inf' and kw.get('min_value', 'min') == 'min':
                 kw['min_value'] = float(np.min(arr[np.isfinite(arr)])) - 1.0
+            if kind == 'inf-param':
+                # legal, if unusual, parameters: keep every pixel (min_value=-inf); no leaf is ever independent (min_delta=inf)
+                if rng.random() < 0.7:
+                    kw['min_value'] = -np.inf
+                else:
+                    kw['min_delta'] = np.inf
+                info['params'] = {k_: repr(v_) for k_, v_ in kw.items() if k_ in ('min_value', 'min_delta', 'min_npix')}
             d = Dendrogram.compute(arr, **kw)
         except Exception as e:
             ctx.oracle_failure(info, ['compute raised %r' % (e,)], {})
@@ -370,6 +377,8 @@ def special_files(ctx, tmpdir):
                 fails.append('data differ after the round trip')
             if not (np.asarray(d.index_map) == np.asarray(d2.index_map)).all():
                 fails.append('label map differs after the round trip')
+            if kind == 'inf-param' and any(float(d.params[k_]) != float(d2.params[k_]) for k_ in ('min_value', 'min_delta', 'min_npix')):
+                fails.append('parameters %s come back as %s' % (dict(d.params), dict(d2.params)))
             v1, v2 = impl.structs_view(d, tuple(arr.shape)), impl.structs_view(d2, tuple(arr.shape))
             if [(i, p_, ch, sorted(own)) for i, p_, ch, own in v1] != [(i, p_, ch, sorted(own)) for i, p_, ch, own in v2]:
                 fails.append('structures differ after the round trip')
